@@ -34,11 +34,18 @@
      BootSeeded         BootstrapElectionModel L105 default_rng(seed=self.seed)
      FreshModelPerCall  client L382-391; FALSE = `self.model` reused when the estimator matches
      DefaultsUntouched  nobody mutates the default list / dict; FALSE = a default-argument call appends to it
-     OrderedIteration   outputs are assembled by iterating lists; FALSE = by iterating a set(...) of strings *)
+     OrderedIteration   outputs are assembled by iterating lists; FALSE = by iterating a set(...) of strings
+     SummaryStateless   get_national_summary_estimates computes everything from ITS arguments (weights, base, levels)
+                        and the contest-level errors of the run; FALSE = the weight-dependent part is computed by the
+                        first summary after a run and kept on the model object (seeded change C12_D)
+
+   A national summary has its own argument tuple (weights / base / levels), independent of the arguments of the
+   estimate run it follows: its key is (arguments of the run, arguments of the summary). *)
 EXTENDS Naturals, Sequences, FiniteSets, TLC
 
 CONSTANTS Estimators, ArgIds, DefaultArgIds, HashSeeds,
-          SigmaSeeded, SplitSeeded, BootSeeded, FreshModelPerCall, DefaultsUntouched, OrderedIteration
+          SigmaSeeded, SplitSeeded, BootSeeded, FreshModelPerCall, DefaultsUntouched, OrderedIteration,
+          SummaryStateless
 
 VARIABLES proc,     \* [id, hash, defaults]   defaults = content of the default-argument objects
           client,   \* [serial, model]        model = NoModel or [est, eff, draws, ran]
@@ -56,12 +63,12 @@ NoSrc == Src("-", 0, NoEff)
 Seeded == Src("seed", 0, NoEff)
 Entropy(n) == Src("entropy", n, NoEff)
 Kept(eff) == Src("kept", 0, eff)
-NoModel == [est |-> "none", eff |-> NoEff, draws |-> NoSrc, ran |-> FALSE]
+NoModel == [est |-> "none", eff |-> NoEff, draws |-> NoSrc, ran |-> FALSE, nat |-> "-"]
 FreshClient(n) == [serial |-> n, model |-> NoModel]
 
 EstKey(e, a) == <<e, a>>
-NatKey(a) == <<"summary", a>>
-Keys == {EstKey(e, a) : e \in Estimators, a \in ArgIds} \cup {NatKey(a) : a \in ArgIds}
+NatKey(a, sa) == <<"summary", a, sa>>
+Keys == {EstKey(e, a) : e \in Estimators, a \in ArgIds} \cup {NatKey(a, sa) : a \in ArgIds, sa \in ArgIds}
 
 Conformal == {"nonparametric", "gaussian"}
 
@@ -74,7 +81,7 @@ ModelOf(e, a, fresh) ==
   LET c == ClientOf(fresh) IN
   IF ~FreshModelPerCall /\ c.model.est = e
   THEN c.model                                                       \* deviation: reuse
-  ELSE [est |-> e, eff |-> Eff(a), draws |-> NoSrc, ran |-> FALSE]    \* client.py L382-391
+  ELSE [est |-> e, eff |-> Eff(a), draws |-> NoSrc, ran |-> FALSE, nat |-> "-"]    \* client.py L382-391
 
 \* hash seeds are strings ("0", "1", "random") so that the two shapes stay comparable
 Order == IF OrderedIteration THEN [kind |-> "list", hash |-> "-"] ELSE [kind |-> "set", hash |-> proc.hash]
@@ -92,11 +99,14 @@ Digest(e, a, fresh) ==
     split |-> IF e \in Conformal THEN (IF SplitSeeded THEN Seeded ELSE Entropy(entropy)) ELSE NoSrc,
     sigma |-> IF e = "gaussian" THEN (IF SigmaSeeded THEN Seeded ELSE Entropy(entropy + 1)) ELSE NoSrc,
     draws |-> DrawsOf(e, a, fresh),
-    order |-> Order ]
+    order |-> Order,
+    weights |-> "-" ]
 
-NatDigest ==
+\* the weights a summary with argument tuple sa effectively uses
+WeightsUsed(sa) == IF SummaryStateless \/ client.model.nat = "-" THEN sa ELSE client.model.nat
+NatDigest(sa) ==
   [ est |-> "summary", eff |-> client.model.eff, split |-> NoSrc, sigma |-> NoSrc,
-    draws |-> client.model.draws, order |-> Order ]
+    draws |-> client.model.draws, order |-> Order, weights |-> WeightsUsed(sa) ]
 
 Record(k, d) == seen' = [seen EXCEPT ![k] = @ \cup {d}]
 
@@ -107,29 +117,31 @@ GetEstimates(e, a, fresh) ==
   IN /\ client' = [serial |-> ClientOf(fresh).serial,
                    model  |-> [m EXCEPT !.draws = IF e = "bootstrap" THEN d.draws ELSE @,
                                         !.eff   = IF e = "bootstrap" /\ m.ran THEN @ ELSE Eff(a),
-                                        !.ran   = (e = "bootstrap")]]
+                                        !.ran   = (e = "bootstrap"),
+                                        !.nat   = IF e = "bootstrap" /\ m.ran THEN @ ELSE "-"]]
      /\ entropy' = entropy + 3          \* whatever was read, the global stream never returns to an old position
      /\ proc' = IF ~DefaultsUntouched /\ a \in DefaultArgIds
                 THEN [proc EXCEPT !.defaults = Append(@, "mutated")] ELSE proc
      /\ Record(EstKey(e, a), d)
-     /\ hist' = Append(hist, [op |-> "est", est |-> e, arg |-> a, fresh |-> fresh])
+     /\ hist' = Append(hist, [op |-> "est", est |-> e, arg |-> a, sarg |-> "-", fresh |-> fresh])
 
 \* client.get_national_summary_votes_estimates: reads what the last run left on self.model; only the bootstrap
 \* model implements it (the others raise NotImplementedError: not part of a history)
 NatSummaryEnabled == client.model.est = "bootstrap" /\ client.model.ran
-NatSummary ==
+NatSummary(sa) ==
   /\ NatSummaryEnabled
-  /\ Record(NatKey(client.model.eff.id), NatDigest)
+  /\ Record(NatKey(client.model.eff.id, sa), NatDigest(sa))
   /\ entropy' = entropy + 1
-  /\ hist' = Append(hist, [op |-> "summary", est |-> "bootstrap", arg |-> client.model.eff.id, fresh |-> FALSE])
-  /\ UNCHANGED <<proc, client>>
+  /\ hist' = Append(hist, [op |-> "summary", est |-> "bootstrap", arg |-> client.model.eff.id, sarg |-> sa, fresh |-> FALSE])
+  /\ client' = [client EXCEPT !.model.nat = IF SummaryStateless \/ @ # "-" THEN @ ELSE sa]
+  /\ UNCHANGED proc
 
 \* a new interpreter: new hash seed, pristine default objects, no client; entropy is NOT reset (it is entropy)
 NewProcess(h) ==
   /\ proc' = [id |-> proc.id + 1, hash |-> h, defaults |-> Pristine]
   /\ client' = FreshClient(client.serial + 1)
   /\ entropy' = entropy + 1
-  /\ hist' = Append(hist, [op |-> "process", est |-> "-", arg |-> "-", fresh |-> TRUE])
+  /\ hist' = Append(hist, [op |-> "process", est |-> "-", arg |-> "-", sarg |-> "-", fresh |-> TRUE])
   /\ UNCHANGED seen
 
 HInit(h) ==
@@ -141,7 +153,7 @@ HInit(h) ==
 
 HNext ==
   \/ \E e \in Estimators, a \in ArgIds, fresh \in BOOLEAN : GetEstimates(e, a, fresh)
-  \/ NatSummary
+  \/ \E sa \in ArgIds : NatSummary(sa)
   \/ \E h \in HashSeeds : NewProcess(h)
 
 (* ---- properties ---- *)
